@@ -48,6 +48,7 @@ struct Tally {
     parts_wrapped: u64,
     cand_judged: u64,
     cand_curled: u64,
+    long_words: u64,
 }
 
 /// Clause A: lonely(lead+word+trail) == avro(lead)+avro(word)+avro(trail)
@@ -156,7 +157,7 @@ impl Prop for C03 {
         "clause 'parts' (suggestions off, 4 settings of English/smart-quote/ANSI): words = all [a-z]{1,3} (thorough; [a-z]{1,2} + a strided third of length 3 in quick), all [A-Za-z0-9]{1,2}, all alphanumeric auto-correct keys, \
          random alphanumeric words up to 12; each with no wrapping, and strided words with every lead/trail string of length <= 2 over the 27 punctuation characters \
          (757 x 757 pairs sampled; full lead x {empty} and {empty} x trail) and random wrappings up to 3; expected = avro(lead)+avro(word)+avro(trail) from the okkhor parser called directly on the generator's own parts. \
-         clause 'candidate' (suggestions on, 4 settings): all 8930 strings of length <= 2 over the 94 typeable characters, the 20-symbol splitter alphabet up to length 3 (quick) / 4 (thorough), random strings up to 10; \
+         clause 'candidate' (suggestions on, 4 settings): all 8930 strings of length <= 2 over the 94 typeable characters, the 20-symbol splitter alphabet up to length 3 (quick) / 4 (thorough), random strings up to 10, and wrapped words of 30-48 letters (4 per shard quick, 40 thorough) in both clauses; \
          each text ended by finish / commit of the pre-selected / commit of the last candidate in rotation; a third of the digits and of . + - * / (fixed by the text) are typed through the number-pad keys in both clauses; the single-string output of a suggestions-off context must be among the candidates after un-curling. distinct_nontrivial = distinct typed texts judged."
             .into()
     }
@@ -265,6 +266,25 @@ impl Prop for C03 {
             out.begin_case(|| json!({"clause": "candidate", "text": tx}));
             judge_candidate(&c, i, &tx, out, &mut t);
         }
+        // long words (30-48 letters; real ones reach 25-30, concatenations and key-mashing go beyond), wrapped, in both clauses
+        let nlong = env.tier.pick(4, 40);
+        for i in 0..nlong {
+            let wl = 30 + (i * 7 + env.shard * 3) % 19;
+            let syll = ["ko", "rmo", "bi", "na", "sha", "ti", "ddho", "pro", "ja", "nto", "e", "r", "k"];
+            let mut w = String::new();
+            while w.len() < wl {
+                w.push_str(syll[rng.below(syll.len())]);
+            }
+            w.truncate(wl);
+            let (l, tr) = [("(", ")"), ("\"", "\""), ("", "."), ("[", "?")][i % 4];
+            out.begin_case(|| json!({"clause": "parts", "lead": l, "word": w, "trail": tr}));
+            judge_parts(&c, &o, i % 4, l, &w, tr, out, &mut t);
+            let tx = format!("{l}{w}{tr}");
+            out.begin_case(|| json!({"clause": "candidate", "text": tx}));
+            judge_candidate(&c, i, &tx, out, &mut t);
+            t.long_words += 1;
+        }
+        out.count("long_words_30_to_48_letters", t.long_words);
         out.count("evaluations", t.events);
         out.count("parts_judged", t.parts_judged);
         out.count("parts_with_wrapping", t.parts_wrapped);
